@@ -4,11 +4,12 @@
    field multiplication of every 16-bit lane on structured and pseudo-random blocks;
    (2) the one-layer and the two-layer schedules agree on the contract-defined outputs for all
    sizes up to 32, all truncations; (3) untruncated they agree on all outputs.
-   The general theorems (nibble decomposition + additivity; layer nesting) are in progress. *)
+   General theorems: C03_mul_portable (kernels of the portable engines), C03_fft_untruncated,
+   C03_fft_truncated and C03_ifft_truncated (schedules: any element type, size, truncation). *)
 From Coq Require Import NArith Bool List Lia.
 From RS.Gen Require Import Prelude GenConsts.
 From RS.Model Require Import Field Tables Sched Layout Kernels.
-From RS.Proofs Require Import FieldFacts Param Linear SchedEquiv.
+From RS.Proofs Require Import FieldFacts Param Linear SchedEquiv Trunc.
 Import ListNotations.
 Local Open Scope N_scope.
 
@@ -34,6 +35,28 @@ Theorem C03_fft_untruncated : forall T (ops : elt_ops T) e k sd l, (k <= 16)%nat
   ifft ops e (2 ^ N.of_nat k) (2 ^ N.of_nat k) sd l = ifft ops Naive (2 ^ N.of_nat k) (2 ^ N.of_nat k) sd l.
 Proof. intros; split; [apply fft_engines_agree|apply ifft_engines_agree]; assumption. Qed.
 Print Assumptions C03_fft_untruncated.
+
+(* truncated forward transform: the engines process different sets of blocks beyond the
+   truncation point, but every output below it is the same for all engines — any element type,
+   any size 2^k <= 2^16, any truncation, any skew_delta, any contents *)
+Theorem C03_fft_truncated : forall T (ops : elt_ops T) e1 e2 k trunc sd l, (k <= 16)%nat ->
+  N.of_nat (length l) = 2 ^ N.of_nat k -> trunc <= 2 ^ N.of_nat k ->
+  firstn (N.to_nat trunc) (fft ops e1 (2 ^ N.of_nat k) trunc sd l) =
+  firstn (N.to_nat trunc) (fft ops e2 (2 ^ N.of_nat k) trunc sd l).
+Proof. exact @fft_trunc_engines. Qed.
+Print Assumptions C03_fft_truncated.
+
+(* truncated inverse transform within its contract (input zero from the truncation point on):
+   every engine returns, on ALL positions, what the untruncated reference transform returns *)
+Theorem C03_ifft_truncated : forall T (ops : elt_ops T) e k trunc sd l, ops_zero ops -> (k <= 16)%nat ->
+  N.of_nat (length l) = 2 ^ N.of_nat k -> trunc <= 2 ^ N.of_nat k ->
+  (forall i, (i < length l)%nat -> trunc <= N.of_nat i -> nth_error l i = Some (zeroT ops)) ->
+  ifft ops e (2 ^ N.of_nat k) trunc sd l = ifft ops Naive (2 ^ N.of_nat k) (2 ^ N.of_nat k) sd l.
+Proof. exact @ifft_trunc_exact. Qed.
+Print Assumptions C03_ifft_truncated.
+(* the element types of the model satisfy the side condition *)
+Theorem C03_ops_zero : ops_zero sym_ops /\ forall n, ops_zero (shard_ops n).
+Proof. split; [exact sym_ops_zero|exact shard_ops_zero]. Qed.
 
 Theorem C03_mul_instances :
   forallb (fun m => forallb (fun b => forallb (fun e => leq (mul_block e m b) (spec_mul_block m b)) engines) blocks)
